@@ -242,3 +242,18 @@ fn d9_http_split_in_method() {
     let r2 = reply(&tcp4_frame(41002, 80, 0x18, 1003, c.wrapping_add(1), b"T / HTTP/1.1\r\n\r\n"), &m).expect("no reply");
     assert!(tcp_payload_of(&r2).starts_with(b"HTTP/1.1 401"), "segmented request was not answered: {:?}", tcp_payload_of(&r2));
 }
+
+#[test]
+fn d12_rpc_proc_unavail() {
+    // ONC-RPC call over UDP: xid, CALL, rpc version 2, program 100000 (portmapper), version 2, procedure 1 (SET - not served),
+    // AUTH_NULL credentials and verifier.  RFC 5531: accept_stat PROC_UNAVAIL = 3 (5 is SYSTEM_ERR).
+    let m = mk(None);
+    let mut p = Vec::new();
+    for w in [0x1234_5678u32, 0, 2, 100000, 2, 1, 0, 0, 0, 0] { p.extend_from_slice(&w.to_be_bytes()); }
+    let f = udp4_frame(40000, 111, &p);
+    let r = reply(&f, &m).expect("no reply to a portmapper call");
+    let b = &r.packet()[14 + 20 + 8..];
+    assert_eq!(&b[0..4], &0x1234_5678u32.to_be_bytes(), "xid");
+    assert_eq!(&b[4..12], &[0, 0, 0, 1, 0, 0, 0, 0], "REPLY / MSG_ACCEPTED");
+    assert_eq!(&b[20..24], &[0, 0, 0, 3], "accept_stat for an unsupported procedure must be PROC_UNAVAIL (3), got {:?}", &b[20..24]);
+}
